@@ -27,7 +27,7 @@ def ref_conf(price, raw_conf, omc, C):
 
 def t_switchboard(world):
     eng = world.engine(max_paths=20000)
-    f = world.fn(r'price\.rs[^>]*PriceAdapter for SwitchboardPullPriceFeed[^>]*>::get_price_of_type$|price\.rs:98[0-9][^>]*>::get_price_of_type$')
+    f = world.fn(r'price\.rs[^>]*>::get_price_of_type$', pred=lambda f_: 'SwitchboardPullPriceFeed' in f_.params[0][1])
     args = [eng.ex.fresh(ty, n) for n, (_, ty) in zip(['feed', 'ptype', 'bias', 'omc'], f.params)]
     res = eng.run_fn(f, args)
     ob = Ob('C09.d.switchboard', 'Switchboard get_price_of_type: price = value/10^18; confidence = min(1.96*std_dev, 5% of price); error iff 1.96*std_dev > price*max_conf (10% default); Low = price - conf <= price <= High = price + conf',
@@ -108,7 +108,7 @@ def scale_summary(eng, st, callee, args):
 def t_pyth(world):
     eng = world.engine(max_paths=50000)
     eng.summaries = [(re.compile(r'(^|::)pyth_price_components_to_i80f48$'), scale_summary)]
-    f = world.fn(r'price\.rs:127[0-9][^>]*>::get_price_of_type$|PriceAdapter for PythPushOraclePriceFeed[^>]*>::get_price_of_type$')
+    f = world.fn(r'price\.rs[^>]*>::get_price_of_type$', pred=lambda f_: 'PythPushOraclePriceFeed' in f_.params[0][1])
     args = [eng.ex.fresh(ty, n) for n, (_, ty) in zip(['feed', 'ptype', 'bias', 'omc'], f.params)]
     res = eng.run_fn(f, args)
     ob = Ob('C09.d.pyth', 'Pyth get_price_of_type: EMA price iff TimeWeighted; confidence = min(2.12*conf, 5% of price) of the same (ema/spot) message; error iff 2.12*conf > price*max_conf; Low/High = price -/+ confidence',
@@ -151,7 +151,7 @@ def t_pyth(world):
 
 def t_swb_load(world):
     eng = world.engine(opaque=[r'parse_swb_ignore_alignment$', r'borrow$', r'LitePullFeedAccountData as From'])
-    f = world.fn(r'SwitchboardPullPriceFeed[^>]*>::load_checked$|price\.rs:879[^>]*>::load_checked$')
+    f = world.fn(r'price\.rs[^>]*>::load_checked$', pred=lambda f_: 'Clock' not in f_.params[1][1])
     args = [eng.ex.fresh(ty, n) for n, (_, ty) in zip(['ai', 'now', 'max_age'], f.params)]
     res = eng.run_fn(f, args)
     ob = Ob('C09.a', 'Switchboard load_checked: accepted => owner is the Switchboard on-demand program, the account parses, now - last_update <= max_age (boundary accepted, +1 rejected)',
@@ -196,7 +196,7 @@ def t_adapter(world):
     OS = ENUMS['OracleSetup']
     eng = world.engine(opaque=ADAPTER_OPAQUE, max_paths=20000)
     eng.summaries = [(re.compile(r'^pyth_solana_receiver_sdk::id$'), lambda e, st, c, a: IntV(PYTH_RECEIVER, 'Pubkey'))]
-    f = world.fn(r'price\.rs:8\d[^>]*>::try_from_bank_with_max_age$|OraclePriceFeedAdapter[^>]*>::try_from_bank_with_max_age$')
+    f = world.fn(r'price\.rs[^>]*>::try_from_bank_with_max_age$')
     args = [eng.ex.fresh(ty, n) for n, (_, ty) in zip(['bank', 'ais', 'clock', 'max_age'], f.params)]
     res = eng.run_fn(f, args)
     ob = Ob('C09.b', 'try_from_bank_with_max_age: a feed is produced only for a supported setup, with exactly the configured number of accounts, each key equal to the configured oracle key at its index, Pyth accounts owned by the Pyth receiver '
@@ -318,7 +318,7 @@ def t_adjust(world, oid='C09.g'):
     OS = ENUMS['OracleSetup']
     eng = world.engine(opaque=ADAPTER_OPAQUE, max_paths=20000)
     eng.summaries = [(re.compile(r'^pyth_solana_receiver_sdk::id$'), lambda e, st, c, a: IntV(PYTH_RECEIVER, 'Pubkey'))]
-    f = world.fn(r'price\.rs:8\d[^>]*>::try_from_bank_with_max_age$|OraclePriceFeedAdapter[^>]*>::try_from_bank_with_max_age$')
+    f = world.fn(r'price\.rs[^>]*>::try_from_bank_with_max_age$')
     args = [eng.ex.fresh(ty, n) for n, (_, ty) in zip(['bank', 'ais', 'clock', 'max_age'], f.params)]
     res = eng.run_fn(f, args)
     ob = Ob(oid, 'exchange-rate-adjusted oracle setups (Kamino, Drift, Solend x Pyth/Switchboard; staked): each field of the loaded feed (spot price, EMA price, spot conf, EMA conf / value, std_dev) is replaced by the adjuster applied to THAT field with one common rate; adjuster errors propagate; adjustment skipped only for an empty reserve; staked: both prices scaled by (stake - 1 SOL)/supply',
@@ -440,7 +440,7 @@ def t_pyth_account(world):
 
 def t_pyth_age(world):
     eng = world.engine(extra=('typecrate', 'drift', 'pyth'), opaque=[r'load_price_update_v2_checked$'], max_paths=2000)
-    f = world.fn(r'price\.rs:10\d\d[^>]*>::load_checked$', pred=lambda f: 'Clock' in f.params[1][1])
+    f = world.fn(r'price\.rs[^>]*>::load_checked$', pred=lambda f: 'Clock' in f.params[1][1])
     args = [eng.ex.fresh(ty, n) for n, (_, ty) in zip(['ai', 'clock', 'max_age'], f.params)]
     res = eng.run_fn(f, args)
     ob = Ob('C09.c.pyth_age', 'Pyth load_checked (with the receiver SDK\'s get_price_no_older_than_with_custom_verification_level executed from its own MIR): accepted => the update is fully verified, publish_time + max_age >= now (saturating; boundary accepted, one second older rejected), '
@@ -510,5 +510,15 @@ def t_max_age(world):
     return [ob]
 
 
+def t_valuation_asset(world):
+    import specs.C04 as C04
+    return C04.t_asset_value(world, 'C09.h.asset')
+
+
+def t_valuation_liab(world):
+    import specs.C04 as C04
+    return C04.t_liab_value(world, 'C09.h.liab')
+
+
 def tasks(tier):
-    return [('switchboard', t_switchboard), ('scale', t_scale), ('pyth', t_pyth), ('swb_load', t_swb_load), ('adapter', t_adapter), ('adjust', t_adjust), ('pyth_account', t_pyth_account), ('pyth_age', t_pyth_age), ('max_age', t_max_age)] + [(f'zero_price_{w}', mk_zero_price(w)) for w in WITHDRAWS if w != 'drift']
+    return [('valuation_asset', t_valuation_asset), ('valuation_liab', t_valuation_liab), ('switchboard', t_switchboard), ('scale', t_scale), ('pyth', t_pyth), ('swb_load', t_swb_load), ('adapter', t_adapter), ('adjust', t_adjust), ('pyth_account', t_pyth_account), ('pyth_age', t_pyth_age), ('max_age', t_max_age)] + [(f'zero_price_{w}', mk_zero_price(w)) for w in WITHDRAWS if w != 'drift']
